@@ -205,6 +205,26 @@ func c14PushCases(c *Ctx) []c14PushCase {
 			}
 		}
 	}
+	// the long regime: one Push call with many values; all of class 0 except one of another class at
+	// position p (the policy approves class 0 only, so p is where the first rejection falls), and a
+	// second odd one later in the batch (it must never be consulted)
+	for _, n := range []int{8, 9, 15, 16, 17, 18, 33, 40, 70} {
+		for _, p := range []int{1, n / 2, n - 3, n - 2, n - 1} {
+			if p < 0 || p >= n {
+				continue
+			}
+			for _, odd := range []int{1, 3} {
+				b := make([]int, n)
+				b[p] = odd
+				if p+2 < n {
+					b[p+2] = 1
+				}
+				for _, cp := range []int{0, n - 2, n + 5} {
+					out = append(out, c14PushCase{kindNames[(n+p)%5], 1, b, cp, 0, false, cp == 0 && odd == 1}, c14PushCase{kindNames[(n+p+1)%5], 15, b, cp, 1, false, false})
+				}
+			}
+		}
+	}
 	return out
 }
 
